@@ -779,3 +779,13 @@ package table
 //@ func (*TableManager).DeleteVrf
 //@   claims at-call
 //@   at-call ^rtcTable.deleteRTCPathsByVrf( requires arg0 != nil
+// the plain (VRF-local) form of a VPN route, as specification vocabulary: a function of the route (not verified here;
+// that it builds a new path and leaves its operand alone is assumed)
+//@ func (*Path).ToLocal
+//@   pure
+//@   spec-only
+// replace-peer-as: works on a copy when it changes anything (assumed: the route it is given and every other existing
+// object are left as they were; not verified)
+//@ func (*Path).ReplaceAS
+//@   pure
+//@   spec-only
